@@ -42,6 +42,9 @@ def draw_ext(draw, h, univ, bias=True):
 
 
 def draw_build(draw, h, names, fail_p=0.15, ver_p=0.2):
+    nalt = len(h.prog_rel.get('alt_roots', []))
+    if nalt and draw(st.sampled_from(range(4))) == 0:
+        h.failures.extend(h.apply(['root', draw(st.integers(0, nalt))]))
     vers = h.last.get('versions', {}) if h.last else {}
     if gen.chance(draw, ver_p):
         vers = draw(gen.versions_for(names))
@@ -173,7 +176,7 @@ def _block_variants(stmts):
 def _used_funcs(prog):
     from .dsl import iter_stmts
     used = set()
-    todo = [prog['root']]
+    todo = [prog['root']] + list(prog.get('alt_roots', []))
     while todo:
         for s in iter_stmts(todo.pop()):
             fn = s[2] if s[0] == 'bf' else s[1] if s[0] == 'sb' else None
@@ -191,7 +194,11 @@ def shrink_candidates(case):
         c['steps'] = _without(steps, i)
         yield c
     prog = case['prog']
-    # 2. unused functions
+    # 2. alternative roots, unused functions
+    if prog.get('alt_roots') and not any(s[0] == 'root' and s[1] for s in steps):
+        c = dict(case)
+        c['prog'] = {k: v for k, v in prog.items() if k != 'alt_roots'}
+        yield c
     used = _used_funcs(prog)
     if len(used) < len(prog['funcs']):
         c = dict(case)
